@@ -278,7 +278,7 @@ Definition served (g : N) (t : pstate) (X : table) : list outcome :=
   concat (map (fun a => map (fun n => pout t (LGet X a n)) (names_of_group g)) read_atoms).
 Definition served_all (g : N) (t : pstate) : list (table * list outcome) := map (fun X => (X, served g t X)) c10_tables.
 Definition unchanged_from (g : N) (before : list (table * list outcome)) (t' : pstate) (T : table) : bool :=
-  forallb (fun p => table_eqb (fst p) T || list_eqb outcome_eqb (snd p) (served g t' (fst p))) before.
+  forallb (fun p => if table_eqb (fst p) T then true else list_eqb outcome_eqb (snd p) (served g t' (fst p))) before.
 Definition others_unchanged (g : N) (t : pstate) (o : lop) : bool :=
   unchanged_from g (served_all g t) (plop g t o) (ltable o).
 (* and the instance dictionaries of every other private table are literally unchanged *)
@@ -320,7 +320,7 @@ Proof.
   specialize (H _ HX). cbn [fst snd] in H.
   assert (table_eqb X (ltable o) = false) as Eb.
   { destruct (table_eqb X (ltable o)) eqn:Q; [apply table_eqb_eq in Q; contradiction|reflexivity]. }
-  rewrite Eb in H. simpl in H. symmetry. apply (list_eqb_eq outcome_eqb outcome_eqb_eq). exact H.
+  rewrite Eb in H. symmetry. apply (list_eqb_eq outcome_eqb outcome_eqb_eq). exact H.
 Qed.
 
 (* every init, read and probe on a table T leaves the instance dictionaries of the other private table unchanged *)
